@@ -50,10 +50,14 @@ struct Reading {
     l16: isize,
 }
 fn measure(spec: &Spec, kind: i64, l: usize, seed: u64) -> Result<Reading, String> {
+    measure_with(spec, kind, l, seed, false)
+}
+/// `muted`: every leaf is one that never delivers anything (the view is updated but handed no value)
+fn measure_with(spec: &Spec, kind: i64, l: usize, seed: u64, muted: bool) -> Result<Reading, String> {
     let positive = spec.needs_positive_input();
     guarded(|| {
         let before = thread_live();
-        let mut v = build::<f64>(spec);
+        let mut v = if muted { build_muted::<f64>(spec) } else { build::<f64>(spec) };
         let mut st = seed | 1;
         let mut t = 0usize;
         let mut feed = |v: &mut BoxView<f64>, upto: usize, t: &mut usize| {
@@ -84,12 +88,13 @@ fn check(case: &Case) -> Verdict {
     }
     let sn = spec.sum_windows();
     let l = (8 * sn + 256) * mult;
-    let r = match measure(spec, kind, l, 0xC18 + sn as u64) {
+    let muted = case.ints.get(2).copied().unwrap_or(0) == 1;
+    let r = match measure_with(spec, kind, l, 0xC18 + sn as u64, muted) {
         Ok(r) => r,
         Err(p) if p.contains("Can compare elements") => return Verdict::Discard("a NaN reached Min/Max (left the domain)".into()),
         Err(p) => return Verdict::fail(format!("C18|{}|panic", spec.name()), format!("{}: {p}", spec.show())),
     };
-    let sname = STREAMS[kind as usize];
+    let sname = if muted { "never-delivered" } else { STREAMS[kind as usize] };
     let cap = (64 * 8 * sn + 4096) as isize;
     let who = culprit(spec, kind, l);
     if r.l4 > r.l1 + 256 || r.l16 > r.l1 + 256 {
@@ -148,6 +153,19 @@ fn enumerate(tier: Tier) -> Vec<Case> {
             }
         }
     }
+    // every view over a leaf that never delivers anything: being updated without being handed a value must not allocate either
+    for n in [1usize, 5, 64] {
+        let mut specs = unary_grid(n);
+        if n > 1 {
+            specs.retain(|s| !s.own_windows().is_empty());
+        }
+        for spec in specs {
+            if matches!(spec, Spec::CyberCycle(_, k) if k < 3) || matches!(spec, Spec::Pfe(_, _, k) if k < 3) {
+                continue; // these panic (C15)
+            }
+            out.push(Case { spec: Some(spec), ints: vec![0, tier.pick(1, 8), 1], a: Rat(1, 1), ..Default::default() });
+        }
+    }
     // every (wrapper, inner) pair at one window pair, three stream classes rotating
     let mut k = 0i64;
     for inner in inners(4) {
@@ -174,7 +192,7 @@ fn chain_check(case: &Case) -> Verdict {
 
 pub fn clauses() -> Vec<Clause> {
     vec![
-        Clause::enumerated("C18", "C18/views_and_pairs/enumerated", "Enumerated: every view over Echo (full secondary-parameter grid) at N in {1,2,3,5,16,64,257} x 7 stream classes (noise, rising ramp, constant, falling ramp, zero stretches, staircase of plateaus and new highs, alternating), and every (wrapper, inner) pair of the catalogue at windows (5, 4) x 2 classes (thorough: all 7). The chain is built and driven on one thread; live bytes attributed to it are read after L = 8 sum(N) + 256 values (thorough 8 x that), after 4L and after 16L. Oracle: live(4L), live(16L) <= live(L) + 256 B and live <= 64 x 8 x sum(N) + 4 KiB. Non-trivial: the tree has a window.", enumerate, check).with_shard(40),
+        Clause::enumerated("C18", "C18/views_and_pairs/enumerated", "Enumerated: every view over Echo (full secondary-parameter grid) at N in {1,2,3,5,16,64,257} x 7 stream classes and over a leaf that never delivers a value (N in {1,5,64}: a view that is updated but handed nothing must not allocate either) (noise, rising ramp, constant, falling ramp, zero stretches, staircase of plateaus and new highs, alternating), and every (wrapper, inner) pair of the catalogue at windows (5, 4) x 2 classes (thorough: all 7). The chain is built and driven on one thread; live bytes attributed to it are read after L = 8 sum(N) + 256 values (thorough 8 x that), after 4L and after 16L. Oracle: live(4L), live(16L) <= live(L) + 256 B and live <= 64 x 8 x sum(N) + 4 KiB. Non-trivial: the tree has a window.", enumerate, check).with_shard(40),
         Clause::generated("C18", "C18/chains/generated", "Generated two-level trees with random windows (1..24, thorough ..64) and parameters, random stream class. Same oracle.", 1500, 30_000, chains, chain_check).with_shard(50),
     ]
 }
